@@ -15,7 +15,7 @@ from vf.ref import ips
 LEVEL = "exploration"
 RULE = (
     "one case per write history (1-6 blocks; lengths 0,1,2 and k*65535-1..k*65535+2; addresses at 0, 0x1FF/0x200, 64K edges, "
-    "0x454F45..47, 2^24 edges and beyond, negative; copier header on/off; content incl. runs and 'EOF'/'PATCH'); "
+    "0x454F45..47, 2^24 edges and beyond, negative; copier header on/off; a third of the blocks placed relative to the previous one (adjacent, overlapping from below, one copier header apart); content incl. runs and 'EOF'/'PATCH'); "
     "distinct by hash of (copier, [(address, length, content digest)]); non-trivial = at least one non-empty block reached the oracle"
 )
 ASSUMPTIONS = [
@@ -77,6 +77,14 @@ def gen_history(rng: random.Random, kmax: int) -> dict:
     writes = []
     for _ in range(rng.choice([1, 1, 2, 2, 3, 4, 6])):
         ln = gen_len(rng, kmax)
+        if writes and rng.random() < 0.35:
+            # placed relative to the previous block: adjacent, overlapping (also starting lower), or exactly one copier header apart
+            pa, pl, _ = writes[-1]
+            addr = pa + pl + rng.choice([0, 0, 1, -1, 0x200, -0x200, 0x1FF, 0x201, -pl, -pl - 4, -pl // 2, -pl - ln, 0x400])
+            if ln > 70000 or pl > 70000:
+                addr = pa + pl + rng.choice([0, 0x200, -0x200])
+            writes.append([addr, ln, rng.getrandbits(32)])
+            continue
         writes.append([gen_addr(rng, ln), ln, rng.getrandbits(32)])
     return {"copier": rng.random() < 0.5, "writes": writes}
 
